@@ -472,6 +472,7 @@ type Case struct {
 	Kind      string `json:"kind"`
 	Path      string `json:"path"`
 	Field     string `json:"field"`
+	Ctx       string `json:"ctx,omitempty"` // context selectors of the leaf (leafContext)
 	Placement string `json:"placement"`
 	PayloadID int    `json:"payload_id"`
 	Value     []int  `json:"value"`
@@ -510,6 +511,7 @@ type FieldStat struct {
 }
 
 type Summary struct {
+	Contexts map[string]int       `json:"contexts"` // context selector string -> number of (field, context) pairs attacked
 	Rec     string                `json:"rec"` // "summary"
 	Fixture string                `json:"fixture"`
 	Plus    bool                  `json:"plus"`
@@ -888,13 +890,16 @@ func runJob(e *env, fi int, fx Fixture, plus bool, rng *vh.Rng, thorough bool, b
 	dedupe := map[string]bool{}
 	perFieldSuspects := map[string]int{}
 	fieldInstances := map[string]int{}
+	ctxSeen := map[string]bool{}
 	for oi, o := range w.Objs {
 		leaves := objLeaves(o, w.ExtraAnn)
 		for _, l := range leaves {
 			nleaves++
 			if nleaves%nchunks != chunk {
 				if !thorough {
-					fieldInstances[normField(l.Field)]++ // instance numbering is global over the fixture, not per chunk
+					// instance numbering is global over the fixture, not per chunk
+					fieldInstances[normField(l.Field)]++
+					fieldInstances[normField(l.Field)+"|"+leafContext(o, l)]++
 				}
 				continue
 			}
@@ -913,26 +918,42 @@ func runJob(e *env, fi int, fx Fixture, plus bool, rng *vh.Rng, thorough bool, b
 				// classic combinations) plus a seed-dependent fifth of the rest; further instances of the same field
 				// (the same Go type reached through another path index) get a seed-dependent sample of 5
 				lr := rng.Fork(uint64(fi*100000 + oi*1000 + nleaves))
-				fieldInstances[normField(l.Field)]++
-				if fieldInstances[normField(l.Field)] == 1 {
+				nf := normField(l.Field)
+				ck := nf + "|" + leafContext(o, l)
+				fieldInstances[nf]++
+				fieldInstances[ck]++
+				switch {
+				case fieldInstances[nf] == 1 && !w.Secondary:
 					payloads = append([]string(nil), corePayloads[:40]...)
 					for _, p := range corePayloads[40:] {
 						if lr.Chance(1, 6) {
 							payloads = append(payloads, p)
 						}
 					}
-				} else {
+				case fieldInstances[ck] == 1:
+					// the same field under context selectors not seen before (another path kind, location kind,
+					// upstream type, path-regex value, ...): another validator or rendering site may apply
+					payloads = contextPayloads
+				default:
 					payloads = nil
 					for k := 0; k < 5; k++ {
 						payloads = append(payloads, corePayloads[lr.Intn(len(corePayloads))])
 					}
 				}
 			}
+			lctx := leafContext(o, l)
+			if sum.Contexts == nil {
+				sum.Contexts = map[string]int{}
+			}
+			if !ctxSeen[normField(l.Field)+"|"+lctx] {
+				ctxSeen[normField(l.Field)+"|"+lctx] = true
+				sum.Contexts[lctx]++
+			}
 			hcache := map[string]*Render{}
 			for _, cd := range candidates(l.Value, payloads, thorough) {
 				st.Candidates++
 				c, class := e.judge(w, &base, oi, l, cd.val, hcache)
-				c.Fixture, c.Placement, c.PayloadID = fx.Name, cd.placement, cd.pid
+				c.Fixture, c.Placement, c.PayloadID, c.Ctx = fx.Name, cd.placement, cd.pid, lctx
 				if c.Obs.Raw && class == "differ" {
 					st.Raw++
 				}
@@ -1051,6 +1072,8 @@ func main() {
 		n := 1
 		if strings.HasPrefix(fixtures[fi].Name, "vs-rich") {
 			n = 12
+		} else if strings.HasPrefix(fixtures[fi].Name, "vs-cross") {
+			n = 4
 		} else if strings.HasPrefix(fixtures[fi].Name, "vs-") || strings.HasPrefix(fixtures[fi].Name, "ing-a") || fixtures[fi].Name == "mergeable" {
 			n = 3
 		}
@@ -1090,6 +1113,12 @@ func main() {
 			}
 			for f := range r.annCovered {
 				annCovered[f] = true
+			}
+			for cx, n := range r.sum.Contexts {
+				if sum.Contexts == nil {
+					sum.Contexts = map[string]int{}
+				}
+				sum.Contexts[cx] += n
 			}
 			for f, st := range r.sum.Fields {
 				t := sum.Fields[f]
@@ -1275,6 +1304,131 @@ func suspectCap(thorough bool) int {
 	}
 	return 6
 }
+
+// ---------------------------------------------------------------- context selectors
+
+var (
+	ctxRouteRe = regexp.MustCompile(`^spec\.(?:sub)?routes\[(\d+)\](?:\.matches\[(\d+)\])?(?:\.splits\[(\d+)\])?(\.action\b)?`)
+	ctxUpRe    = regexp.MustCompile(`^spec\.upstreams\[(\d+)\]`)
+	ctxPathRe  = regexp.MustCompile(`^spec\.rules\[(\d+)\]\.http\.paths\[(\d+)\]`)
+)
+
+func pathKind(p string) string {
+	switch {
+	case strings.HasPrefix(p, "~*"):
+		return "iregex"
+	case strings.HasPrefix(p, "~"):
+		return "regex"
+	case strings.HasPrefix(p, "="):
+		return "exact"
+	}
+	return "prefix"
+}
+
+func upType(ups []conf_v1.Upstream, name string) string {
+	for _, u := range ups {
+		if u.Name == name {
+			switch {
+			case u.Type == "grpc":
+				return "grpc"
+			case u.TLS.Enable:
+				return "tls"
+			}
+			return "http"
+		}
+	}
+	return "-"
+}
+
+func atoi(s string) int {
+	n := 0
+	for _, c := range s {
+		n = n*10 + int(c-'0')
+	}
+	return n
+}
+
+// leafContext names the CONTEXT SELECTORS of a leaf: what, besides the field itself, decides which validator
+// and which rendering site apply to it.  Route leaves: kind of the route path (prefix / regex / iregex / exact),
+// kind of location (top, splits, matches, matches-splits; the default action of a route with matches is internal
+// too: top+m), type of the upstream the enclosing action goes to, VirtualServer route or VirtualServerRoute
+// subroute.  Upstream leaves: upstream type.  Ingress leaves: role (regular / master / minion), value of
+// nginx.org/path-regex, pathType of the enclosing path.  TransportServer leaves: listener protocol, TLS termination.
+func leafContext(o Obj, l Leaf) string {
+	routeCtx := func(kind string, routes []conf_v1.Route, ups []conf_v1.Upstream) string {
+		m := ctxRouteRe.FindStringSubmatch(l.Path)
+		if m == nil {
+			if u := ctxUpRe.FindStringSubmatch(l.Path); u != nil && atoi(u[1]) < len(ups) {
+				return kind + ":up=" + upType(ups, ups[atoi(u[1])].Name)
+			}
+			return kind
+		}
+		ri := atoi(m[1])
+		if ri >= len(routes) {
+			return kind
+		}
+		r := routes[ri]
+		loc := "top"
+		var act *conf_v1.Action = r.Action
+		if m[2] != "" && atoi(m[2]) < len(r.Matches) {
+			loc = "matches"
+			mt := r.Matches[atoi(m[2])]
+			act = mt.Action
+			if m[3] != "" && atoi(m[3]) < len(mt.Splits) {
+				loc = "matches-splits"
+				act = mt.Splits[atoi(m[3])].Action
+			}
+		} else if m[3] != "" && atoi(m[3]) < len(r.Splits) {
+			loc = "splits"
+			act = r.Splits[atoi(m[3])].Action
+		} else if len(r.Matches) > 0 {
+			loc = "top+m"
+		}
+		up := "-"
+		if m[4] != "" && act != nil {
+			switch {
+			case act.Pass != "":
+				up = upType(ups, act.Pass)
+			case act.Proxy != nil:
+				up = upType(ups, act.Proxy.Upstream)
+			}
+		}
+		return kind + ":" + pathKind(r.Path) + ":" + loc + ":up=" + up
+	}
+	switch x := o.Val.(type) {
+	case *conf_v1.VirtualServer:
+		return routeCtx("vs", x.Spec.Routes, x.Spec.Upstreams)
+	case *conf_v1.VirtualServerRoute:
+		return routeCtx("vsr", x.Spec.Subroutes, x.Spec.Upstreams)
+	case *networking.Ingress:
+		role := "regular"
+		if t := x.Annotations["nginx.org/mergeable-ingress-type"]; t != "" {
+			role = t
+		}
+		c := "ing:" + role + ":regex=" + x.Annotations["nginx.org/path-regex"]
+		if m := ctxPathRe.FindStringSubmatch(l.Path); m != nil {
+			ri, pi := atoi(m[1]), atoi(m[2])
+			if ri < len(x.Spec.Rules) && x.Spec.Rules[ri].HTTP != nil && pi < len(x.Spec.Rules[ri].HTTP.Paths) {
+				if pt := x.Spec.Rules[ri].HTTP.Paths[pi].PathType; pt != nil {
+					c += ":pathType=" + string(*pt)
+				}
+			}
+		}
+		return c
+	case *conf_v1.TransportServer:
+		tls := "notls"
+		if x.Spec.TLS != nil && x.Spec.TLS.Secret != "" {
+			tls = "tls"
+		}
+		return "ts:" + x.Spec.Listener.Protocol + ":" + tls
+	}
+	return ""
+}
+
+// contextPayloads: what a (field, context) pair seen for the first time gets in the quick tier when the
+// field itself was already attacked with the full quick set in another context: the single structural bytes and
+// the classic terminator / quote / escape combinations
+var contextPayloads = []string{";", "{", "}", "#", "\"", "'", "\\", "\n", " ", "$", "${", "; injected on;", "a;b", "a{b", "\";", "\\;", "x;}", "#x\n"}
 
 func stringOf(xs []int) string {
 	b := make([]byte, len(xs))
